@@ -44,9 +44,9 @@ Proof. reflexivity. Qed.
 Lemma aa_ok_next s : aa_ok s = true -> forall i, i + 1 < lenN s -> nthN s i < 128 ->
   is_cont (nthN s (i + 1)) = false.
 Proof.
-  induction s as [|b r IH]; intros H i Hi Hb; [rewrite lenN_nil in Hi; lia|].
+  induction s as [|b r IH]; intros H i Hi Hb; [unfold lenN in Hi; cbn [length] in Hi; lia|].
   destruct (N.eq_dec i 0) as [->|Hn].
-  - destruct r as [|c r']; [rewrite !lenN_cons, lenN_nil in Hi; lia|].
+  - destruct r as [|c r']; [unfold lenN in Hi; cbn [length] in Hi; lia|].
     cbn [aa_ok] in H. apply andb_true_iff in H as [H1 _].
     rewrite nthN_cons_0 in Hb. change (0 + 1) with 1. replace 1 with (0 + 1) by lia.
     rewrite nthN_cons_succ, nthN_cons_0.
